@@ -1122,8 +1122,6 @@ class MultipartWriter(Payload):
 
     def append_payload(self, payload: Payload) -> Payload:
         """Adds a new body part to multipart writer."""
-        encoding: str | None = None
-        te_encoding: str | None = None
         if self._is_form_data:
             # https://datatracker.ietf.org/doc/html/rfc7578#section-4.7
             # https://datatracker.ietf.org/doc/html/rfc7578#section-4.8
@@ -1135,7 +1133,16 @@ class MultipartWriter(Payload):
             if CONTENT_DISPOSITION not in payload.headers:
                 name = f"section-{len(self._parts)}"
                 payload.set_content_disposition("form-data", name=name)
-        else:
+        encoding, te_encoding = self._part_encodings(payload)
+        self._parts.append((payload, encoding, te_encoding))  # type: ignore[arg-type]
+        return payload
+
+    def _part_encodings(self, payload: Payload) -> tuple[str | None, str | None]:
+        # The headers of a part may be set after append() as well (the Payload
+        # is returned for that), so they are read whenever the part is used.
+        encoding: str | None = None
+        te_encoding: str | None = None
+        if not self._is_form_data:
             # compression
             encoding = payload.headers.get(CONTENT_ENCODING, "").lower()
             if encoding and encoding not in ("deflate", "gzip", "identity"):
@@ -1152,11 +1159,11 @@ class MultipartWriter(Payload):
 
             # size
             size = payload.size
-            if size is not None and not (encoding or te_encoding):
+            if encoding or te_encoding:
+                payload.headers.pop(CONTENT_LENGTH, None)
+            elif size is not None:
                 payload.headers[CONTENT_LENGTH] = str(size)
-
-        self._parts.append((payload, encoding, te_encoding))  # type: ignore[arg-type]
-        return payload
+        return encoding, te_encoding
 
     def append_json(
         self, obj: Any, headers: Mapping[str, str] | None = None
@@ -1192,7 +1199,8 @@ class MultipartWriter(Payload):
     def size(self) -> int | None:
         """Size of the payload."""
         total = 0
-        for part, encoding, te_encoding in self._parts:
+        for part, _e, _te in self._parts:
+            encoding, te_encoding = self._part_encodings(part)
             part_size = part.size
             if encoding or te_encoding or part_size is None:
                 return None
@@ -1255,7 +1263,8 @@ class MultipartWriter(Payload):
         self, writer: AbstractStreamWriter, close_boundary: bool = True
     ) -> None:
         """Write body."""
-        for part, encoding, te_encoding in self._parts:
+        for part, _e, _te in self._parts:
+            encoding, te_encoding = self._part_encodings(part)
             if self._is_form_data:
                 # https://datatracker.ietf.org/doc/html/rfc7578#section-4.2
                 assert CONTENT_DISPOSITION in part.headers
